@@ -18,6 +18,7 @@
 #include <memory>
 #include <mutex>
 #include <utility>
+#include "celma/common/detail/verif_hook.hpp"
 
 
 namespace celma { namespace common {
@@ -108,10 +109,17 @@ template< class T> template< class... Args>
    T& Singleton< T>::instance( Args&&... args)
 {
 
+   CELMA_VERIF_POINT( "singleton.instance.before_lock");
    const std::lock_guard< std::mutex>  lg( mMutex);
    if (mpObject.get() == nullptr)
    {
+#ifdef CELMA_VERIF
+      std::unique_ptr< T>  verif_new_obj( new T( std::forward< Args>( args)...));
+      CELMA_VERIF_POINT( "singleton.instance.constructed");
+      mpObject = std::move( verif_new_obj);
+#else
       mpObject.reset( new T( std::forward< Args>( args)...));
+#endif
    } // end if
 
    return *mpObject;
